@@ -243,6 +243,8 @@ def r6_order(ctx, A, rule="C03.R6"):
         full = t["callee"].get("res_full") or t["callee"].get("full") or ""
         if "Range<u64>" not in a0:
             continue
+        if t["callee"].get("res_local") or t["callee"].get("local"):
+            continue  # crate-local functions that receive the list are analysed through the calls they make themselves
         if not ("Vec<" in a0 or "SmallVec<" in a0 or "[std::ops::Range<u64>]" in a0 or "Iter<" in a0):
             continue
         n += 1
